@@ -79,7 +79,11 @@ def strict_strategy(draw):
     else:
         targ, tkind, _ = draw(gc.spell(text))
     barg, bkind, _ = draw(gc.spell(bg, allow_translucent=False))
-    return {"text": targ, "bg": barg, "large": large, "very": very, "mode": 0, "tkind": tkind, "bkind": bkind, "meta": meta}
+    case = {"text": targ, "bg": barg, "large": large, "very": very, "mode": 0, "tkind": tkind, "bkind": bkind, "meta": meta}
+    w = draw(optim.warm())
+    if w:
+        case["warm"] = w
+    return case
 
 
 # ---- 4b ---------------------------------------------------------------------------------------------------
